@@ -234,6 +234,10 @@ static econf_err pr_key_file(struct econf_file *key_file)
         econf_error = econf_getKeys(key_file, group, &key_count, &keys);
         if (g == 0 && econf_error == ECONF_NOKEY)
 	    continue; /* no keys without a group */
+        if (econf_error == ECONF_NOKEY) {
+	    printf("%s\n\n", group); /* group without keys */
+	    continue;
+	}
         if (econf_error) {
 	    print_error(econf_error);
             econf_free(keys);
